@@ -95,6 +95,7 @@ func (o *Operations) Move(from string, to string) error {
 		}
 
 		hdr.Size = 0 // Don't try to seek after the record
+		hdr.Format = tar.FormatPAX // The STFS records below need PAX, whatever format the entry was archived in
 		hdr.Name = path.Join(to, strings.TrimPrefix(strings.TrimPrefix(dbhdr.Name, "/"), strings.TrimPrefix(from, "/")))
 		hdr.PAXRecords[records.STFSRecordVersion] = records.STFSRecordVersion1
 		hdr.PAXRecords[records.STFSRecordAction] = records.STFSRecordActionUpdate
